@@ -24,7 +24,10 @@ func (server *GripServer) ClosePlugins() {
 }
 
 func (server *GripServer) StartPlugin(ctx context.Context, config *gripql.PluginConfig) (*gripql.PluginStatus, error) {
-	if _, ok := server.plugins[config.Name]; ok {
+	server.mu.RLock()
+	_, running := server.plugins[config.Name]
+	server.mu.RUnlock()
+	if running {
 		return nil, fmt.Errorf("Plugin named %s already running", config.Name)
 	}
 	workdir, err := ioutil.TempDir(server.conf.Server.WorkDir, "gripper-")
@@ -40,17 +43,21 @@ func (server *GripServer) StartPlugin(ctx context.Context, config *gripql.Plugin
 	if err != nil {
 		return nil, err
 	}
+	server.mu.Lock()
 	server.plugins[config.Name] = &Plugin{name: config.Name, plugin: plg, client: cli}
 	server.sources[config.Name] = cli
+	server.mu.Unlock()
 	server.updateGraphMap()
 	return &gripql.PluginStatus{Name: config.Name}, nil
 }
 
 func (server *GripServer) ListPlugins(context.Context, *gripql.Empty) (*gripql.ListPluginsResponse, error) {
 	out := []string{}
+	server.mu.RLock()
 	for k := range server.plugins {
 		out = append(out, k)
 	}
+	server.mu.RUnlock()
 	return &gripql.ListPluginsResponse{Plugins: out}, nil
 }
 
